@@ -251,7 +251,11 @@ func (u *Unit) mergeStates(sts []*State) *State {
 		for i := len(live) - 1; i >= 0; i-- {
 			t, ok := live[i].ghost[g]
 			if !ok {
-				continue
+				if init, has := u.gens["ghost0:"+g]; has {
+					t = init
+				} else {
+					continue
+				}
 			}
 			if first {
 				acc = t
